@@ -147,7 +147,10 @@ P_C05(cfg, pre, e, post, g) ==
 P_C06(cfg, pre, e, post, g) ==
   cfg.ttl # 0 /\ e.op = "get" /\ e.k \in Dom(pre) =>
      LET a == pre.store[e.k].age IN
-     /\ a >= cfg.ttl => e.ret = None /\ e.k \notin Dom(post)
+     /\ a >= cfg.ttl => /\ e.ret = None /\ e.k \notin Dom(post)
+                        \* the purge concerns the expired entry only: no other stored key loses its
+                        \* place in the eviction queue
+                        /\ \A x \in Dom(post) : x \in SeqRange(pre.order) => x \in SeqRange(post.order)
      /\ a < (IF IsAsync(cfg) THEN cfg.ttl - 1 ELSE cfg.ttl) => e.ret = pre.store[e.k].val
 
 -----------------------------------------------------------------------------
